@@ -1,6 +1,7 @@
 package main
 
 import (
+	"bytes"
 	"strings"
 
 	"github.com/go-i2p/common/base32"
@@ -91,6 +92,32 @@ func init() {
 		return Res{"oks": oks, "outs": ints(outs)}
 	})
 	// size guards: n bytes (encoders) or n alphabet characters (decoders); content elided
+	// TextBig: encode then decode a large input (pattern bytes; the length comes from the specification); only equality,
+	// the output length and the alphabet are observed (the strings are far too long to pass through the trace)
+	register("TextBig", func(s *Session, a Args) Res {
+		n := a.Int("n")
+		in := make([]byte, n)
+		for i := range in {
+			in[i] = byte(i*131 + i/251 + 7)
+		}
+		ok, enc := textEnc(a.Str("pkg"), a.Str("fn"), in)
+		if !ok {
+			return Res{"enc_ok": false, "outlen": 0, "dec_ok": false, "equal": false, "alphabet_ok": false}
+		}
+		alpha := "abcdefghijklmnopqrstuvwxyz234567="
+		if a.Str("pkg") == "b64" {
+			alpha = "ABCDEFGHIJKLMNOPQRSTUVWXYZabcdefghijklmnopqrstuvwxyz0123456789-~="
+		}
+		alphaOK := true
+		for i := 0; i < len(enc); i++ {
+			if !strings.ContainsRune(alpha, rune(enc[i])) {
+				alphaOK = false
+				break
+			}
+		}
+		dok, dec := textDec(a.Str("pkg"), a.Str("dec"), enc)
+		return Res{"enc_ok": true, "outlen": len(enc), "dec_ok": dok, "equal": dok && bytes.Equal(dec, in), "alphabet_ok": alphaOK}
+	})
 	register("TextGuard", func(s *Session, a Args) Res {
 		n := a.Int("n")
 		if strings.HasPrefix(a.Str("fn"), "Encode") {
